@@ -23,6 +23,8 @@ TABLE_OPS_FOR = {
     "C11": ["iter"],
     "C12": ["lookup", "rem"],
     "C19": ["lookup", "iter"],
+    "C01": ["mark"],
+    "C06": ["del", "clear"],
 }
 
 def table_jobs(tier, prop):
@@ -42,7 +44,7 @@ def jobs(tier):
     def add(name, h, ns, funcs, defs=(), rc=(), unwind=None, timeout=1500, covers=True, extra=(), safety=True):
         J.append(Job("C02.%s.ns%d" % (name, ns), "C02", "K3", "Table/k3.c", h, funcs, link=L, defines=["NS=%d" % ns] + list(defs),
                      replace_calls=["exception_throw:cv_throw"] + list(rc), unwind=unwind or (ns + 2), cbmc=list(extra), covers=covers,
-                     safety=safety, group="Table.%s" % name, also=["C05", "C11", "C12", "C19"], timeout=timeout, ignore=FLAT,
+                     safety=safety, group="Table.%s" % name, also=["C05", "C11", "C12", "C19", "C01", "C06"], timeout=timeout, ignore=FLAT,
                      bound="Table: capacity %s with fully symbolic contents (occupancy, keys, values, homes), keys colliding arbitrarily (uninterpreted hash); rehash 3->5, 5->11, 5->1 over the set_move contract" % sizes,
                      case="capacity %d" % ns, replay="table_search.c",
                      assumptions=["element model (contracts/elem.h, light ledger)", "calloc/free: typed slot-array pool model (assumed allocator contract)",
@@ -53,6 +55,7 @@ def jobs(tier):
         add("rem", "h_rem", ns, ["Table_Rem", "Table_Probe"], rc=["Table_Resize_Less:cv_resize_less"])
         add("clear", "h_clear", ns, ["Table_Resize", "Table_Clear"])
         add("del", "h_del", ns, ["Table_Del"])
+        add("mark", "h_mark", ns, ["Table_Mark"])
     for ns in [0] + sizes:
         # capacity 0: Table_Get compares the key pointer with a NULL slot array on every path; with cbmc's pointer checks on, everything
         # behind that (ignored) failure stays undecided, so this one case runs with the arithmetic/bounds checks only
